@@ -3,6 +3,10 @@ import PV.C13.Spec
 import PV.C13.Domain
 import PV.C13.Lemmas
 import PV.C13.Linear
+import PV.C13.Fold
+import PV.C13.Overrides
+import PV.C13.FoldLemmas
+import PV.C12.Thm
 import PV.Common.Proto
 /-
   C13 — property theorems.  Helper lemmas live in `PV/C13/Lemmas.lean` (line breaks, the indexed
@@ -14,6 +18,12 @@ import PV.Common.Proto
   `validUtf8_lineStartsOk` derives it from a structural validity check.
   `dbg` selects a build with / without debug assertions and overflow checks; every theorem holds
   for both.
+
+  Part 1 (call histories): the two locators on their own.
+  Part 2 (trees): the located fold `foldLocated` of `PV/C13/Fold.lean` — the generated fold program
+  regenerated from ast/src/gen/fold.rs plus the `LinearLocator` overrides of ast/src/source_locator.rs —
+  on every tree that is `SrcOrdered`; generic in the fold configuration (`LocWF`), then instantiated
+  on the regenerated program by `decide`.
 -/
 namespace PV.C13
 open PV.C15 PV.C13.Spec
@@ -207,5 +217,275 @@ theorem linear_any_order_fails : ¬ linear_any_order_full := by
   have := h true [0x61, 10, 0x62] [.locate 2, .locate 0] (validUtf8_lineStartsOk (by decide)) (by decide)
   rw [linear_requires_order.1] at this
   simp at this
+
+
+/-! ## Part 2 — trees: the located fold
+
+  `cfg : LocCfg` = the generated fold program + the overrides of `LinearLocator`; `LocWF cfg sch` = every
+  `fold_<kind>` calls both range callbacks and folds every field of its kind; `Conforms sch t` = the tree
+  is typed by the schema (checked by the driver on every real tree).
+  `SrcOrdered cfg src t` (`PV/C13/Fold.lean`, decidable): walking `t` the way `LinearLocator::fold` does,
+  with a cursor that starts after a leading BOM — every node starts at or after the cursor (for the
+  children folded before `will_map_user`, e.g. decorators: after them), its children, in fold order,
+  each start at or after the end of the previous one, the node ends at or after its last child; nodes
+  located by look-ahead (call / class keywords, the end of an f-string) lie at or after the cursor and
+  do not move it; f-string pieces carry the range of the whole `JoinedStr`; every offset is `InDomain`. -/
+
+open PV.C12 (Tree Schema Conforms)
+
+/-- The calls `LinearLocator::fold` makes on a `SrcOrdered` tree form a forward history. -/
+theorem locHistory_forward {cfg : LocCfg} {sch : Schema} (hwf : LocWF cfg sch) {src : List Nat} {t : Tree}
+    (hc : Conforms sch t) (ho : SrcOrdered cfg src t) :
+    ∃ h, locHistory cfg t = some h ∧ Forward src (initCursor src) h := by
+  obtain ⟨c', hc'⟩ := srcOrdered_iff.mp ho
+  obtain ⟨log, hf, hI, _⟩ := (sim_fold recL _ _ leB _ (rec_spec src (initCursor src)) hwf (depth t + 1)).1 .lin t
+    (Nat.lt_succ_self _) (conf_of_conforms hc) (initCursor src) c' [] ⟨by simp [Forward], by simp [endCur]⟩ hc'
+  exact ⟨log.reverse, by simp [locHistory, hf], hI⟩
+
+/-- … hence every one of those calls returns the reference row and column (`linear_eq_spec`). -/
+theorem locHistory_results {cfg : LocCfg} {sch : Schema} (hwf : LocWF cfg sch) (dbg : Bool) {src : List Nat}
+    (hs : LineStartsOk src) {t : Tree} (hc : Conforms sch t) (ho : SrcOrdered cfg src t) :
+    ∃ h, locHistory cfg t = some h ∧ run dbg src h = h.map (fun op => some (rowCol src op.off)) := by
+  obtain ⟨h, h1, h2⟩ := locHistory_forward hwf hc ho
+  exact ⟨h, h1, linear_eq_spec dbg hs h h2⟩
+
+/-- **First sentence of the property, at tree level.**  Folding a `SrcOrdered` tree with the
+    `LinearLocator` (either build flavour) does not panic and stores in every node the reference
+    (row, column) of its start and of its end. -/
+theorem fold_locations_eq_spec {cfg : LocCfg} {sch : Schema} (hwf : LocWF cfg sch) (dbg : Bool) {src : List Nat}
+    (hs : LineStartsOk src) {t : Tree} (hc : Conforms sch t) (ho : SrcOrdered cfg src t) :
+    foldLocated cfg (.linear dbg) src t = some (locMap (rowCol src) t) := by
+  obtain ⟨c', hc'⟩ := srcOrdered_iff.mp ho
+  obtain ⟨st, hf, _⟩ := (sim_fold (linearL dbg src) _ _ leB _ (linear_spec hs dbg) hwf (depth t + 1)).1 .lin t
+    (Nat.lt_succ_self _) (conf_of_conforms hc) (initCursor src) c' (St.init src)
+    ⟨init_eq_stateAt src, curOk_init hs⟩ hc'
+  simp [foldLocated, hf]
+
+/-- The `RandomLocator` stores the reference positions in every node of ANY tree whose offsets are
+    character boundaries, whatever their order. -/
+theorem fold_random_eq_spec {cfg : LocCfg} {sch : Schema} (hwf : LocWF cfg sch) {src : List Nat}
+    (hs : LineStartsOk src) {t : Tree} (hc : Conforms sch t) (hb : ∀ o ∈ offsT t, isBoundary src o = true) :
+    foldLocated cfg .random src t = some (locMap (rowCol src) t) := by
+  obtain ⟨c', hc'⟩ := ordGen_of_allDom (isBoundary src) hwf (depth t + 1) t 0 (Nat.lt_succ_self _) (conf_of_conforms hc) hb
+  obtain ⟨st, hf, _⟩ := (sim_fold (randomL src) _ _ _ _ (random_spec hs) hwf (depth t + 1)).1 .gen t
+    (Nat.lt_succ_self _) (conf_of_conforms hc) 0 c' () trivial hc'
+  simp [foldLocated, hf]
+
+/-- every offset of a `SrcOrdered` tree is in the domain (the fold visits every node) -/
+theorem srcOrdered_inDomain {cfg : LocCfg} {sch : Schema} (hwf : LocWF cfg sch) {src : List Nat} {t : Tree}
+    (hc : Conforms sch t) (ho : SrcOrdered cfg src t) : ∀ o ∈ offsT t, InDomain src o := by
+  obtain ⟨c', hc'⟩ := srcOrdered_iff.mp ho
+  intro o hoo
+  have := (allDom_ord leB (fun o => decide (InDomain src o)) hwf (depth t + 1)).1 .lin t _ _
+    (Nat.lt_succ_self _) (conf_of_conforms hc) hc' o hoo
+  simpa using this
+
+/-- **Second sentence of the property, at tree level.**  On a `SrcOrdered` tree the incremental and the
+    indexed locator produce the same located tree. -/
+theorem fold_linear_eq_random {cfg : LocCfg} {sch : Schema} (hwf : LocWF cfg sch) (dbg : Bool) {src : List Nat}
+    (hs : LineStartsOk src) {t : Tree} (hc : Conforms sch t) (ho : SrcOrdered cfg src t) :
+    foldLocated cfg (.linear dbg) src t = foldLocated cfg .random src t := by
+  rw [fold_locations_eq_spec hwf dbg hs hc ho,
+    fold_random_eq_spec hwf hs hc (fun o hoo => (srcOrdered_inDomain hwf hc ho o hoo).1)]
+
+/-! ### the regenerated fold program -/
+
+/-- Regenerated obligation: the fold program read from ast/src/gen/fold.rs on this run, with the
+    overrides of `LinearLocator`, is well-formed. -/
+theorem locWF_gen : LocWF realCfg PV.C12.Gen.schema := by decide +kernel
+
+theorem locHistory_forward_gen {src : List Nat} {t : Tree} (hc : Conforms PV.C12.Gen.schema t)
+    (ho : SrcOrdered realCfg src t) : ∃ h, locHistory realCfg t = some h ∧ Forward src (initCursor src) h :=
+  locHistory_forward locWF_gen hc ho
+
+/-- the property for the real node kinds and the real fold order -/
+theorem fold_locations_eq_spec_gen (dbg : Bool) {src : List Nat} (hs : LineStartsOk src) {t : Tree}
+    (hc : Conforms PV.C12.Gen.schema t) (ho : SrcOrdered realCfg src t) :
+    foldLocated realCfg (.linear dbg) src t = some (locMap (rowCol src) t) :=
+  fold_locations_eq_spec locWF_gen dbg hs hc ho
+
+theorem fold_linear_eq_random_gen (dbg : Bool) {src : List Nat} (hs : LineStartsOk src) {t : Tree}
+    (hc : Conforms PV.C12.Gen.schema t) (ho : SrcOrdered realCfg src t) :
+    foldLocated realCfg (.linear dbg) src t = foldLocated realCfg .random src t :=
+  fold_linear_eq_random locWF_gen dbg hs hc ho
+
+/-! ### non-vacuity: real trees (leaf texts shortened to one character) -/
+
+/-- a `Name` node -/
+def nm (a b : Nat) : Tree := .node 55 (some (a, b)) [.leaf [], .leaf []]
+/-- an integer `Constant` node -/
+def num (a b : Nat) : Tree := .node 51 (some (a, b)) [.leaf [49], .none]
+
+/-- the tree the parser builds for `class A(x=1, *b): pass\n` -/
+def classdefTree : Tree :=
+  .node 0 none [.list [.node 6 (some (0, 22)) [.leaf [65],
+    .list [.node 54 (some (13, 15)) [nm 14 15, .leaf []]],
+    .list [.node 62 (some (8, 11)) [.some (.leaf [120]), num 10 11]],
+    .list [.node 29 (some (18, 22)) []], .list [], .list []]], .list []]
+
+/-- BOM `é = f(k=1, *b)` CR LF `x = {**c, 1: d if e else g}` CR `class A(m=M, *b): pass` LF -/
+def richText : List Nat :=
+  [239, 187, 191, 195, 169, 32, 61, 32, 102, 40, 107, 61, 49, 44, 32, 42, 98, 41, 13, 10, 120, 32, 61, 32, 123, 42,
+   42, 99, 44, 32, 49, 58, 32, 100, 32, 105, 102, 32, 101, 32, 101, 108, 115, 101, 32, 103, 125, 13, 99, 108, 97,
+   115, 115, 32, 65, 40, 109, 61, 77, 44, 32, 42, 98, 41, 58, 32, 112, 97, 115, 115, 10]
+
+/-- the tree the parser builds for `richText`: a call with a keyword before a starred argument, a dict
+    with unpacking, a conditional expression, a class with a keyword before a starred base — all of
+    them in tree order ≠ source order -/
+def richTree : Tree :=
+  .node 0 none [.list [
+    .node 9 (some (3, 18)) [.list [nm 3 5],
+      .node 48 (some (8, 18)) [nm 8 9, .list [.node 54 (some (15, 17)) [nm 16 17, .leaf []]],
+        .list [.node 62 (some (10, 13)) [.some (.leaf [107]), num 12 13]]], .none],
+    .node 9 (some (20, 47)) [.list [nm 20 21],
+      .node 38 (some (24, 47)) [.list [.none, .some (num 30 31)],
+        .list [nm 27 28, .node 37 (some (33, 46)) [nm 38 39, nm 33 34, nm 45 46]]], .none],
+    .node 6 (some (48, 70)) [.leaf [65], .list [.node 54 (some (61, 63)) [nm 62 63, .leaf []]],
+      .list [.node 62 (some (56, 59)) [.some (.leaf [109]), nm 58 59]],
+      .list [.node 29 (some (66, 70)) []], .list [], .list []]], .list []]
+
+example : LineStartsOk richText := validUtf8_lineStartsOk (by decide)
+example : Conforms PV.C12.Gen.schema richTree := by decide
+example : SrcOrdered realCfg richText richTree := by decide
+/-- tree (pre-)order is not source order here: the offsets in `derive(Debug)` order go back and forth -/
+example : ¬ (offsT richTree).Pairwise (· ≤ ·) := by decide
+example : (foldLocated realCfg (.linear true) richText richTree).map LTree.ranges =
+    some [((1, 1), (1, 15)), ((1, 1), (1, 2)), ((1, 5), (1, 15)), ((1, 5), (1, 6)), ((1, 12), (1, 14)), ((1, 13), (1, 14)),
+      ((1, 7), (1, 10)), ((1, 9), (1, 10)), ((2, 1), (2, 28)), ((2, 1), (2, 2)), ((2, 5), (2, 28)), ((2, 11), (2, 12)),
+      ((2, 8), (2, 9)), ((2, 14), (2, 27)), ((2, 19), (2, 20)), ((2, 14), (2, 15)), ((2, 26), (2, 27)), ((3, 1), (3, 23)),
+      ((3, 14), (3, 16)), ((3, 15), (3, 16)), ((3, 9), (3, 12)), ((3, 11), (3, 12)), ((3, 19), (3, 23))] := by decide
+example : foldLocated realCfg (.linear false) richText richTree = foldLocated realCfg .random richText richTree :=
+  fold_linear_eq_random_gen false (validUtf8_lineStartsOk (by decide)) (by decide) (by decide)
+
+/-- the history of the model on `class A(x=1, *b): pass\n` is the one recorded from the real fold
+    (`classdef_keyword_before_starred_base_forward`) -/
+example : locHistory realCfg classdefTree =
+    some [.locate 0, .locateOnly 8, .locateOnly 10, .locateOnly 11, .locateOnly 11, .locate 13, .locate 14,
+       .locate 15, .locate 15, .locate 18, .locate 22, .locate 22] := by decide
+example : SrcOrdered realCfg classdefText classdefTree := by decide
+
+/-! ### what happens on trees that are not `SrcOrdered` -/
+
+/-- `fold_stmt_class_def` as it was before /repo 505c970: bases, then keywords, both by `locate` -/
+def oldClassCfg : LocCfg :=
+  { realCfg with ov := realCfg.ov.map fun kp =>
+      if kp.1 == 6 then (6, ⟨[.fold 4], [.fold 0, .fold 5, .fold 1, .fold 2, .fold 3], true⟩) else kp }
+
+/-- `class A(\n  metaclass=M,\n  *bases): pass\n` -/
+def classdef2Text : List Nat :=
+  [99, 108, 97, 115, 115, 32, 65, 40, 10, 32, 32, 109, 101, 116, 97, 99, 108, 97, 115, 115, 61, 77, 44, 10, 32, 32,
+   42, 98, 97, 115, 101, 115, 41, 58, 32, 112, 97, 115, 115, 10]
+
+def classdef2Tree : Tree :=
+  .node 0 none [.list [.node 6 (some (0, 39)) [.leaf [65],
+    .list [.node 54 (some (26, 32)) [nm 27 32, .leaf []]],
+    .list [.node 62 (some (11, 22)) [.some (.leaf [109]), nm 21 22]],
+    .list [.node 29 (some (35, 39)) []], .list [], .list []]], .list []]
+
+/-- The old fold order is still a well-formed fold program (every field folded, callbacks called) — it
+    is the TREES that matter: with it, the class-keyword trees are not `SrcOrdered`; a debug build panics
+    in the fold, a release build stores row 3, column 2^32 - 12 for a keyword that is at row 2, column 3,
+    while the `RandomLocator` is right.  With the real fold order the same trees are `SrcOrdered`. -/
+theorem fold_requires_order :
+    LocWF oldClassCfg PV.C12.Gen.schema ∧
+    ¬ SrcOrdered oldClassCfg classdefText classdefTree ∧
+    foldLocated oldClassCfg (.linear true) classdefText classdefTree = none ∧
+    ¬ SrcOrdered oldClassCfg classdef2Text classdef2Tree ∧
+    (foldLocated oldClassCfg (.linear false) classdef2Text classdef2Tree).map LTree.ranges =
+      some [((1, 1), (3, 16)), ((3, 3), (3, 9)), ((3, 4), (3, 9)), ((3, 4294967284), (3, 4294967295)),
+        ((3, 4294967294), (3, 4294967295)), ((3, 12), (3, 16))] ∧
+    (foldLocated oldClassCfg .random classdef2Text classdef2Tree).map LTree.ranges =
+      some [((1, 1), (3, 16)), ((3, 3), (3, 9)), ((3, 4), (3, 9)), ((2, 3), (2, 14)), ((2, 13), (2, 14)), ((3, 12), (3, 16))] ∧
+    SrcOrdered realCfg classdefText classdefTree ∧ SrcOrdered realCfg classdef2Text classdef2Tree := by
+  refine ⟨by decide +kernel, by decide, by decide, by decide, by decide, by decide, by decide, by decide⟩
+
+/-- What the property literally asks for: both locators agree on EVERY conforming tree whose offsets are
+    in the domain, "whatever order the tree's nodes appear in the source". -/
+def fold_any_order_full : Prop :=
+  ∀ (dbg : Bool) (src : List Nat) (t : Tree), LineStartsOk src → Conforms PV.C12.Gen.schema t →
+    (∀ o ∈ offsT t, InDomain src o ∧ initCursor src ≤ o) →
+    foldLocated realCfg (.linear dbg) src t = foldLocated realCfg .random src t
+
+/-- `a + b` with the operands exchanged in the tree (left operand ranged 4..5, right operand 0..1): every range is
+    sane and enclosed in its parent's, but the fold visits the left operand first. -/
+def swappedBinop : Tree :=
+  .node 0 none [.list [.node 28 (some (0, 5)) [.node 34 (some (0, 5)) [nm 4 5, .leaf [], nm 0 1]]], .list []]
+
+/-- It does not hold: the `LinearLocator` needs the tree in fold order. -/
+theorem fold_any_order_fails : ¬ fold_any_order_full := by
+  intro h
+  have := h true [97, 32, 43, 32, 98] swappedBinop (validUtf8_lineStartsOk (by decide)) (by decide) (by decide)
+  have e1 : foldLocated realCfg (.linear true) [97, 32, 43, 32, 98] swappedBinop = none := by decide
+  have e2 : (foldLocated realCfg .random [97, 32, 43, 32, 98] swappedBinop).isSome = true := by decide
+  rw [← this, e1] at e2
+  simp at e2
+
+/-- `SrcOrdered` is not a consequence of C02-style facts (every range sane, inside its parent's range, list
+    elements in order): `swappedBinop` has all of them.  What it adds is "the fields, in FOLD order, are in
+    source order", per node kind. -/
+def enclosedB : Option (Nat × Nat) → Tree → Bool
+  | par, .node _ r fs =>
+    let own := match r with
+      | some (a, b) => decide (a ≤ b) && (match par with | some (pa, pb) => decide (pa ≤ a) && decide (b ≤ pb) | none => true)
+      | none => true
+    own && (offsL fs).all fun o => match r.orElse (fun _ => par) with | some (pa, pb) => decide (pa ≤ o) && decide (o ≤ pb) | none => true
+  | _, _ => true
+
+example : enclosedB none swappedBinop = true ∧ ¬ SrcOrdered realCfg [97, 32, 43, 32, 98] swappedBinop := by decide
+
+
+/-! ### the listed finding `linear-fstring-concat-piece-range`, at model level -/
+
+/-- `f'{x}' f'{y}'\n` -/
+def fconcatText : List Nat := [102, 39, 123, 120, 125, 39, 32, 102, 39, 123, 121, 125, 39, 10]
+
+/-- the tree the parser builds for it: the two `FormattedValue` pieces carry the ranges of their own
+    literals (0..6, 7..13), not the range of the `JoinedStr` (0..13) -/
+def fconcatTree : Tree :=
+  .node 0 none [.list [.node 28 (some (0, 13)) [.node 50 (some (0, 13)) [.list [
+    .node 49 (some (0, 6)) [nm 3 4, .leaf [], .none],
+    .node 49 (some (7, 13)) [nm 10 11, .leaf [], .none]]]]], .list []]
+
+/-- The fold is forward, nothing panics — but `linear_locate_expr_joined_str` stores the location of the
+    whole f-string (1,1-1,14) in both pieces, where the `RandomLocator` stores 1,1-1,7 and 1,8-1,14: the
+    tree is not `SrcOrdered` (a piece does not carry the range whose location it receives), and the two
+    locators disagree. -/
+theorem fstring_concat_pieces :
+    ¬ SrcOrdered realCfg fconcatText fconcatTree ∧
+    (∃ h, locHistory realCfg fconcatTree = some h ∧ Forward fconcatText (initCursor fconcatText) h) ∧
+    (foldLocated realCfg (.linear true) fconcatText fconcatTree).map LTree.ranges =
+      some [((1, 1), (1, 14)), ((1, 1), (1, 14)), ((1, 1), (1, 14)), ((1, 4), (1, 5)), ((1, 1), (1, 14)), ((1, 11), (1, 12))] ∧
+    (foldLocated realCfg .random fconcatText fconcatTree).map LTree.ranges =
+      some [((1, 1), (1, 14)), ((1, 1), (1, 14)), ((1, 1), (1, 7)), ((1, 4), (1, 5)), ((1, 8), (1, 14)), ((1, 11), (1, 12))] := by
+  refine ⟨by decide, ⟨[.locate 0, .locate 0, .locateOnly 13, .locate 3, .locate 4, .locate 10, .locate 11, .locate 13],
+    by decide, by decide⟩, by decide, by decide⟩
+
+/-- How `SrcOrdered` reads node by node (the link with C02's `rangesOk`, which states "start ≤ end, inside the
+    parent, list elements in order"): for a range-carrying node that is not located by look-ahead and whose
+    `fold_<kind>` folds nothing before `will_map_user`, being ordered from a cursor `c` splits into
+    "the node starts at or after `c`" (the previous sibling IN FOLD ORDER ended before it) and "the node is
+    ordered from its own start" (its children, in fold order, lie between its start and its end). -/
+theorem ordT_node_split (le : Nat → Nat → Bool) (dom : Nat → Bool) (cfg : LocCfg) (hrefl : ∀ a, le a a = true)
+    (n : Nat) (m : Mode) (hm : m ≠ .look) (k a b : Nat) (fs : List Tree) (c : Nat)
+    (hpre : ∀ plan, cfg.planOf m k = some plan → plan.pre = []) :
+    ordT le dom cfg (n + 1) m c (.node k (some (a, b)) fs) =
+      if le c a then ordT le dom cfg (n + 1) m a (.node k (some (a, b)) fs) else none := by
+  have hcur : ∀ x, curAfter m x a = a := by intro x; cases m <;> simp_all [curAfter]
+  simp only [ordT]
+  by_cases hj : (m == Mode.lin && k == cfg.joined) = true
+  · simp only [hj, ↓reduceIte, hrefl]
+    cases le c a <;> simp
+  · simp only [hj, Bool.false_eq_true, ↓reduceIte]
+    cases hp : cfg.planOf m k with
+    | none => simp
+    | some plan =>
+      simp only [ordNode, hpre plan hp, ordSteps, hcur, hrefl]
+      cases le c a <;> simp
+
+/-- e.g. a `BinOp` (generated fold, no override): nothing is folded before `will_map_user` -/
+example (c a b : Nat) (fs : List Tree) (n : Nat) :
+    ordT leB (fun _ => true) realCfg (n + 1) .lin c (.node 34 (some (a, b)) fs) =
+      if leB c a then ordT leB (fun _ => true) realCfg (n + 1) .lin a (.node 34 (some (a, b)) fs) else none :=
+  ordT_node_split leB _ realCfg (by simp [leB]) n .lin (by decide) 34 a b fs c (by intro plan h; cases h; rfl)
 
 end PV.C13
